@@ -45,6 +45,9 @@ pub trait WorldDriver: Sized {
     /// Leaks (`mem::forget`) a runtime-borrow guard of one column: safe code, after which the
     /// RefCell of that column stays borrowed forever.
     fn leak_guard(&self, a: usize, col: usize, mutable: bool);
+    /// Clones archetype `a` (`world_level`: the whole world) and drops the copy; `hook` is called
+    /// from inside the first instrumented component `Clone` that runs during the copy.
+    fn reentrant_clone(&self, a: usize, world_level: bool, hook: &mut dyn FnMut());
 
     fn dump(&self, a: usize) -> VerifDump;
     fn preset(&mut self, a: usize, slot_gens: &[u32], arch_gen: u32);
@@ -753,6 +756,16 @@ macro_rules! arch_driver {
         }
 
         #[allow(unused_assignments)]
+        pub fn reentrant_clone(w: &$W, world_level: bool, hook: &mut dyn FnMut()) {
+            $crate::comps::with_clone_hook(hook, || {
+                if world_level {
+                    drop(w.clone());
+                } else {
+                    drop(w.$f.clone());
+                }
+            })
+        }
+
         pub fn leak_guard(w: &$W, col: usize, mutable: bool) {
             let mut i = 0usize;
             $( if i == col {
@@ -1146,6 +1159,7 @@ macro_rules! world_driver {
                 match a { $( $i => $m::find_alternating(w1, w2, borrow, key), )+ _ => unreachable!() }
             }
             fn leak_guard(&self, a: usize, col: usize, mutable: bool) { match a { $( $i => $m::leak_guard(self, col, mutable), )+ _ => unreachable!() } }
+            fn reentrant_clone(&self, a: usize, world_level: bool, hook: &mut dyn FnMut()) { match a { $( $i => $m::reentrant_clone(self, world_level, hook), )+ _ => unreachable!() } }
             fn dump(&self, a: usize) -> $crate::types::VerifDump { match a { $( $i => $m::dump(self), )+ _ => unreachable!() } }
             fn preset(&mut self, a: usize, slot_gens: &[u32], arch_gen: u32) { match a { $( $i => $m::preset(self, slot_gens, arch_gen), )+ _ => unreachable!() } }
             fn new_direct(a: usize, idx: usize, version: $crate::driver::ArchetypeVersion) -> EntityDirectAny {
